@@ -527,7 +527,44 @@ def rule_empty_delta(ctx, rule='R06.10'):
     ctx.covered(rule, 'append path: no exit or warning depends on the delta buffer being empty (%s)' % ', '.join(sorted(diffvars)), n + 1, floor=1)
 
 
+def rule_schedule_direction(ctx, rule='R06.12'):
+    """R06.12: the interval schedule of the archive works in both directions of time: simulationarchive_next is advanced by
+    sign(dt) * interval, and "a snapshot is due" means sign*next <= sign*t. An ordering comparison between the schedule time
+    and the simulation time that is not taken through the same sign factor on both sides is right for one direction only
+    (a backward run never sees its snapshots become due). Every such comparison in the library is collected."""
+    n = 0
+    samples = []
+    for cfile, tu in sorted(cfront.load_tus().items()):
+        for fname, fn in sorted(tu.funcs.items()):
+            if cfront.body(fn) is None or cfront.basename(fn.get('_locfile') or fn.get('_file')) != cfile:
+                continue
+            for e in walk(cfront.body(tu.func(fname))):
+                if e.get('kind') != 'BinaryOperator' or e.get('opcode') not in ('<', '<=', '>', '>='):
+                    continue
+                a, b = render(e['inner'][0]).replace(' ', ''), render(e['inner'][1]).replace(' ', '')
+                sides = (a, b)
+                if not any(re.search(r'simulationarchive_next\b(?!_step)', x) for x in sides):
+                    continue
+                other = b if re.search(r'simulationarchive_next\b(?!_step)', a) else a
+                if not re.search(r'(^|[^\w.])r\.t\b', other):
+                    continue        # compared with wall-clock time or a step count: no direction
+                n += 1
+                where = 'src/%s:%s %s' % (cfile, line_of(e), fname)
+
+                def factor(x):
+                    m_ = re.match(r'^\(*(\w+)\*', x)
+                    return m_.group(1) if m_ else None
+                fa, fb = factor(a), factor(b)
+                if fa is None or fa != fb:
+                    ctx.report(rule, '%s:direction' % fname, where,
+                               'the schedule time and the simulation time are compared as %s without a common sign factor: for a negative timestep the comparison points the wrong way and snapshots of a backward integration never become due (or are always due)' % render(e))
+                else:
+                    samples.append('%s: %s' % (where, render(e)))
+    ctx.covered(rule, 'ordering comparisons between simulationarchive_next and r->t carry the sign of the timestep on both sides', n, floor=1, samples=samples)
+
+
 def run(ctx):
+    rule_schedule_direction(ctx)
     from . import pyrules
     pyrules.rule_selector_truthiness(ctx, 'R06.11', ('Simulation', 'Simulationarchive'))   # snapshot 0 is a snapshot
     rule_empty_delta(ctx)
